@@ -23,9 +23,17 @@ type rwStep struct {
 }
 
 type rwCase struct {
-	Method string   `json:"method"`
-	Steps  []rwStep `json:"steps"`
+	Method  string   `json:"method"`
+	Flusher *bool    `json:"flusher,omitempty"` // whether the underlying writer implements http.Flusher (default true)
+	Steps   []rwStep `json:"steps"`
 }
+
+// rwSpyPlain is the same spy without Flush / Push: an underlying writer that is only an http.ResponseWriter.
+type rwSpyPlain struct{ s *rwSpy }
+
+func (p rwSpyPlain) Header() http.Header         { return p.s.Header() }
+func (p rwSpyPlain) WriteHeader(c int)           { p.s.WriteHeader(c) }
+func (p rwSpyPlain) Write(b []byte) (int, error) { return p.s.Write(b) }
 
 type rwEntry struct {
 	K string `json:"k"`
@@ -64,7 +72,11 @@ func rwReplay(raw json.RawMessage, idx int, tr *traceWriter) {
 	}
 	tr.emit(map[string]interface{}{"ev": "reset", "case": idx, "method": c.Method, "input": raw})
 	spy := &rwSpy{hdr: http.Header{}}
-	w := flamego.NewResponseWriter(c.Method, spy)
+	var under http.ResponseWriter = spy
+	if c.Flusher != nil && !*c.Flusher {
+		under = rwSpyPlain{spy}
+	}
+	w := flamego.NewResponseWriter(c.Method, under)
 	for _, st := range c.Steps {
 		o := st.O
 		switch o.Op {
@@ -99,6 +111,10 @@ func rwGen(seed int64, n int, args []string, out *json.Encoder) {
 	methods := []string{"GET", "HEAD", "POST", "PUT", "DELETE", "OPTIONS", "PATCH"}
 	for i := 0; i < n; i++ {
 		c := rwCase{Method: methods[rng.Intn(len(methods))]}
+		if rng.Intn(3) == 0 {
+			nf := false
+			c.Flusher = &nf
+		}
 		k := 1 + rng.Intn(maxLen)
 		hookN := 0
 		for j := 0; j < k; j++ {
